@@ -114,6 +114,8 @@ func (s *pStmt) SQL(ind string) string {
 		return ind + "RETURN " + s.e.SQL() + ";\n"
 	case "dispose":
 		return ind + "DISPOSE " + s.name + ";\n"
+	case "dispfunc":
+		return ind + "DISPOSE FUNCTION " + s.name + ";\n"
 	case "func":
 		var ps []string
 		for i, p := range s.params {
@@ -421,6 +423,17 @@ func (in *pInterp) exec(env []*pBlock, ss []*pStmt, inLoop bool) (int, int, *pEr
 				return flNone, 0, err
 			}
 			return flReturn, v, nil
+		case "dispfunc":
+			done := false
+			for i := len(env) - 1; i >= 0 && !done; i-- {
+				if _, ok := env[i].funcs[strings.ToUpper(s.name)]; ok {
+					delete(env[i].funcs, strings.ToUpper(s.name))
+					done = true
+				}
+			}
+			if !done {
+				return flNone, 0, &pErr{"function " + s.name + " does not exist"}
+			}
 		case "func":
 			if _, dup := cur.funcs[strings.ToUpper(s.name)]; dup {
 				return flNone, 0, &pErr{"function " + s.name + " is redeclared"}
@@ -640,6 +653,26 @@ func (g *pGen) block(vis []string, declaredHere map[string]bool, depth int, inLo
 			out = append(out, fn)
 			g.funcs = append(g.funcs, name)
 			g.features["func"] = true
+		case c == 15 && !inFunc && depth >= 1 && len(g.funcs) > 0 && !declaredHere["fn:"+g.funcs[0]] && g.r.P(60):
+			// a function of the same name as an outer one, declared, used and disposed inside this block: afterwards the outer one is back
+			name := g.funcs[g.r.Intn(len(g.funcs))]
+			if declaredHere["fn:"+name] {
+				continue
+			}
+			k := g.r.Range(2, 9)
+			sh := &pStmt{k: "func", name: name, params: []string{"@p", "@q"}, defs: []*pExpr{nil, {k: "lit", n: 1}}}
+			sh.body = []*pStmt{{k: "return", e: &pExpr{k: "bin", op: "*", a: &pExpr{k: "var", name: "@p"}, b: &pExpr{k: "lit", n: k * 100}}}}
+			call := func() *pStmt {
+				return &pStmt{k: "print", e: &pExpr{k: "call", name: name, args: []*pExpr{{k: "lit", n: g.r.Range(0, 2)}}}}
+			}
+			out = append(out, sh, call())
+			declaredHere["fn:"+name] = true
+			if g.r.P(70) {
+				out = append(out, &pStmt{k: "dispfunc", name: name}, call())
+				delete(declaredHere, "fn:"+name)
+			}
+			g.features["shadowfunc"] = true
+			g.features["call"] = true
 		case c == 16 && len(vis) > 1 && g.r.P(40):
 			di := 1 + g.r.Intn(len(vis)-1)
 			if !strings.HasPrefix(vis[di], "@") || strings.HasPrefix(vis[di], "@i") || strings.HasPrefix(vis[di], "@p") || strings.HasPrefix(vis[di], "@q") {
@@ -804,6 +837,9 @@ func c15Case(w *core.Worker, i int) {
 	}
 	if g.features["curloop"] {
 		w.Count("programs_with_a_cursor_loop", 1)
+	}
+	if g.features["shadowfunc"] {
+		w.Count("programs_with_a_shadowing_function", 1)
 	}
 	if g.features["var2"] {
 		w.Count("programs_with_a_two_variable_declaration", 1)
